@@ -169,3 +169,68 @@ LEVEL_TEXT = ('Unbounded theorems: streams are the originals at every test bound
               'inside layer hooks and after the run) on exhaustive short sequences and random tests.')
 LEVEL_NOTE = ('Two open findings are classified by the model itself: output written after a skip event goes to the real stream; output '
               'captured before a skip event is lost when the same test fails later.')
+
+
+# ---------------------------------------------------------------------------------------------------------------
+# layers run in subprocesses (-j 2, or resumed after a layer that cannot be torn down) with --buffer: the child
+# re-binds sys.stderr to its stdout by design, so the model's stream split does not apply; the STATEMENT does
+# (a failing test's tokens — written to either stream — appear once, under its header, in what the parent prints;
+# the tokens of non-failing tests never appear).  Only the statement is evaluated (check_child: no correspondence bit).
+class ChildBatch:
+    CHK = CHK
+    IMPORTS = IMPORTS
+    SHARD = SHARD
+    CHECK_FN = 'check_child'
+    LABEL = 'children'
+    RULE = ('children batch: two or three layers whose tests write unique tokens to stdout/stderr in every phase, run with --buffer '
+            'and -j2 / -j3 or resumed in a subprocess after a layer whose tearDown raises NotImplementedError; statement evaluated on '
+            'what the parent process prints')
+    EXHAUSTIVE = {}
+
+    def generate(self, rng, tier, rep):
+        n = {'quick': 16, 'thorough': 200, 'search': 30}[tier]
+        cases = []
+        for _ in range(n):
+            nl = rng.choice([2, 2, 3])
+            resumed = rng.random() < 0.4
+            layers = []
+            for i in range(nl):
+                hooks = {'setUp': ['ok'], 'tearDown': ['notimpl'] if (resumed and i == 0) else ['ok']}
+                layers.append({'name': ['La', 'Lb', 'Lc'][i], 'bases': [], 'kind': 'instance', 'hooks': hooks})
+            tests = []
+            for i in range(nl):
+                for _ in range(rng.randint(1, 3)):
+                    T = dict(rng.choice(KINDS[:3] + KINDS[8:12] + [{}, {'body': 'fail'}]))
+                    T['layer'] = i
+                    tests.append(T)
+            tests = add_writes(rng, tests, buffered=False)
+            opts = ['--buffer'] + ([] if resumed else [rng.choice(['-j2', '-j3'])]) + rng.choice([[], ['-v'], ['-vv']])
+            cases.append({'layers': layers, 'tests': tests, 'options': opts})
+            rep.count('children_mode=%s' % ('resumed' if resumed else 'parallel'))
+        return cases
+
+    def observe(self, cases):
+        return worldrun.run_worlds(cases)
+
+    def nontrivial(self, c):
+        return nontrivial(c)
+
+    def to_coq(self, c, o):
+        # every token is expected on the parent's stdout (the child merges its stderr into stdout); o_ident is not
+        # meaningful in a child (stderr is re-bound there by design)
+        s = to_coq(c, o)
+        s = re.sub(r'err_toks := \[[^\]]*\]', 'err_toks := []', s)
+        s = re.sub(r'o_ident := (true|false)', 'o_ident := true', s)
+        return s
+
+    def sample_view(self, c, o):
+        return sample_view(c, o)
+
+    def classify(self, case, obs, code, findings):
+        return classify(case, obs, code, findings)
+
+    def shrink_candidates(self, c):
+        return shrink_candidates(c)
+
+
+EXTRA_BATCHES = [ChildBatch()]
